@@ -144,7 +144,7 @@ fn run_session(sess: &Session, gc: &GcSched, fuel: u64) -> (Vec<String>, crate::
                     withhold_imports: false,
                     linked_promises: false,
                     host_activity_pm: 0,
-                    internal_sources: Default::default(), stale_answer_ids: Vec::new(),
+                    internal_sources: Default::default(), stale_answer_ids: Vec::new(), stub_then_real: false,
                 };
                 let out = crate::props::c11::run_to_end(&mut h, spec);
                 crate::host::install_gc(gc, 0);
